@@ -215,96 +215,4 @@ theorem tFr_ch1_mono (p : Prep) (a : Args) (o : Orc) (h1 : a.nChannelsInternal =
   unfold tFr tD2 tD1
   rw [frames_ch1_mono _ _ _ _ h1, sideReset_ch1_mono _ _ _ h1, readFlags_ch1_mono _ _ _ h1]
 
-theorem inb_gen {b : String} {lo n stride cap : Int} (hn : 0 < n) (hlo : 0 ≤ lo) (hs : 0 < stride) (h : lo + (n - 1) * stride + 1 ≤ cap) :
-    Acc.InBounds { buf := b, lo := lo, n := n, stride := stride, cap := cap } := by
-  simp [Acc.InBounds, Acc.hi]; omega
-
-theorem tail_accs {api : Int} {p : Prep} {a : Args} {o : Orc} (ha : ApiOk api) (hapi : a.API_sampleRate = api)
-    (hca : a.nChannelsAPI = 1 ∨ a.nChannelsAPI = 2) (hci : a.nChannelsInternal = 1 ∨ a.nChannelsInternal = 2)
-    (hR : Ready api a p.d) (hO : OrcOk p.d.ch0.frame_length (p.d.ch0.nb_subfr * (api / 200)) o)
-    (hsm : p.sToM = true → p.d.ch1.rsIn = p.d.ch0.fs_kHz) : ∀ x ∈ (tail p a o).ac, x.InBounds := by
-  obtain ⟨r0, rlt, r1, rn, rapi⟩ := hR
-  obtain ⟨_, _, _, _, _, _, _, _, o9, o10⟩ := hO
-  have K := keep_tFr p a o
-  obtain ⟨k1, k2, k3, k4, k5, k6, k7, k8, k9, k10, k11, k12, k13, k14⟩ := K.1
-  have c0 : ChanOk api (tFr p a o).d.ch0 := chanOk_of_keyEq r0 K.1 (by omega) (by omega)
-  have KD1 : DecKeep 0 a p.d (tD1 p a o) := readFlags_keep p.d a o
-  have KD : DecKeep (0 + 0) a p.d (tD2 p a o) := KD1.trans (sideReset_keep (tD1 p a o) a (tSp p a o).dom)
-  have hfl1 : a.nChannelsInternal = 2 → (tD2 p a o).ch1.frame_length = (tD2 p a o).ch0.frame_length := by
-    intro h2
-    obtain ⟨q1, q2⟩ := r1 h2
-    rw [(KD.2.1 h2).2.2.2.1, KD.1.2.2.2.1, q1.1.2.2.1, r0.1.2.2.1, q2.1, q2.2.1]
-  have hN : (tFr p a o).N = (tFr p a o).d.ch0.frame_length := by
-    unfold tFr
-    rw [frames_N _ _ _ _ hfl1, (frames_keep _ _ _ _).1.2.2.2.1]
-  obtain ⟨n1, n2, n3, n4, n5⟩ := nSamplesOut_ok ha c0
-  have c0' := c0
-  obtain ⟨⟨hf, hnb, hfl, _, _, _, _, _, _, hri, _⟩, _, hnf, hd0, hd1⟩ := c0
-  have hflp : 0 < (tFr p a o).d.ch0.frame_length ∧ 8 * (tFr p a o).d.ch0.fs_kHz ≤ (tFr p a o).d.ch0.frame_length ∧
-      (tFr p a o).d.ch0.fs_kHz ≤ (tFr p a o).d.ch0.frame_length := by
-    rcases hf with hf | hf | hf <;> rcases hnb with hnb | hnb <;> rw [hf, hnb] at hfl <;> rw [hf] <;> omega
-  have hri1 : a.nChannelsInternal = 2 → (tFr p a o).d.ch1.rsIn = (tFr p a o).d.ch0.fs_kHz := by
-    intro h2
-    obtain ⟨q1, q2⟩ := r1 h2
-    rw [(K.2.1 h2).2.2.2.2.2.2.2.2.2.2.2.1, k1, q1.1.2.2.2.2.2.2.2.2.2.1, q2.1]
-  have hri2 : p.sToM = true → a.nChannelsInternal = 1 → (tFr p a o).d.ch1.rsIn = (tFr p a o).d.ch0.fs_kHz := by
-    intro hs h1
-    rw [tFr_ch1_mono p a o h1, hsm hs, k1]
-  have hstr : (if a.nChannelsAPI = 2 then (2 : Int) else 1) = a.nChannelsAPI := by rcases hca with h | h <;> simp [h]
-  have hnfd : 0 ≤ p.d.ch0.nFramesDecoded ∧ p.d.ch0.nFramesDecoded < 3 := by
-    have := r0.2.2.1; have := r0.2.2.2.1; omega
-  have hlen0 : ((rsOutp o 0).length : Int) = (tFr p a o).d.ch0.nb_subfr * (api / 200) := by rw [o9, k3]; omega
-  have hlen1 : ((rsOutp o 1).length : Int) = (tFr p a o).d.ch0.nb_subfr * (api / 200) := by rw [o10, k3]; omega
-  unfold tail
-  dsimp only
-  split
-  · rename_i h; exact absurd h n1
-  · intro x hx
-    rw [hN, hapi, n3] at hx
-    simp only [List.mem_append] at hx
-    rcases hx with ((((((((hx | hx) | hx) | hx) | hx) | hx) | hx) | hx) | hx) | hx
-    · exact readFlags_accs p.d a o r0 (fun h2 => (r1 h2).1) x hx
-    · refine stereoPred_accs _ a o ?_ ?_ x hx
-      · rw [KD1.1.2.2.2.2.2.2.2.2.2.2.2.2.2]; omega
-      · rw [KD1.1.2.2.2.2.2.2.2.2.2.2.2.2.2]; omega
-    · refine hasSide_accs _ a _ (fun h2 => ?_) x hx
-      rw [(KD.2.1 h2).2.2.2.2.2.2.2.2.2.2.2.2.2, (r1 h2).2.2.2.2]; omega
-    · simp only [List.mem_singleton] at hx; subst hx
-      refine inb_gen ?_ (by omega) (by omega) (by omega)
-      rcases hci with h | h <;> rw [h] <;> omega
-    · refine frames_accs _ a o _ hci ?_ hfl1 ?_ ?_ x hx
-      · rw [KD.1.2.2.2.1, ← k4]; exact hflp.1
-      · rw [KD.1.2.2.2.2.2.2.2.2.2.2.2.2.2]; omega
-      · rw [KD.1.2.2.2.2.2.2.2.2.2.2.2.2.2]; omega
-    · split at hx
-      · rename_i h
-        rw [h.2] at hx
-        exact (tmp_extents_ok c0' 2 (Or.inr rfl)).2.2.2 rfl x hx
-      · simp only [List.mem_cons, List.mem_nil_iff, or_false] at hx
-        rcases hx with rfl | rfl <;> refine inb_gen ?_ ?_ ?_ ?_ <;>
-          first | omega | (rcases hci with h | h <;> simp only [h] <;> omega)
-    · simp only [hstr, hlen0, hri, List.mem_append, List.mem_cons, List.mem_singleton, List.mem_nil_iff, or_false] at hx
-      rcases hx with (rfl | rfl | rfl) | rfl <;> refine inb_gen ?_ ?_ ?_ ?_ <;>
-        first | omega | (rcases hci with h | h <;> rcases hca with h' | h' <;> simp only [h, h'] <;> omega)
-    · split at hx
-      · rename_i htwo
-        have h2 : a.nChannelsInternal = 2 := by
-          rcases hci with h | h <;> rcases hca with h' | h' <;> simp [h, h'] at htwo ⊢
-        simp only [hlen1, hri1 h2, List.mem_append, List.mem_cons, List.mem_singleton, List.mem_nil_iff, or_false] at hx
-        rcases hx with (rfl | rfl | rfl) | rfl <;> refine inb_gen ?_ ?_ ?_ ?_ <;>
-          first | omega | (rcases hca with h' | h' <;> simp only [h2, h'] <;> omega)
-      · simp at hx
-    · split at hx
-      · rename_i hm
-        split at hx
-        · rename_i hs
-          simp only [hlen1, hri2 hs hm.2, List.mem_append, List.mem_cons, List.mem_singleton, List.mem_nil_iff, or_false] at hx
-          rcases hx with (rfl | rfl | rfl) | rfl <;> refine inb_gen ?_ ?_ ?_ ?_ <;>
-            first | omega | (simp only [hm.1, hm.2] <;> omega)
-        · simp only [List.mem_append, List.mem_cons, List.mem_singleton, List.mem_nil_iff, or_false] at hx
-          rcases hx with rfl | rfl <;> refine inb_gen ?_ ?_ ?_ ?_ <;>
-            first | omega | (simp only [hm.1, hm.2] <;> omega)
-      · simp at hx
-    · exact pitchLagOut_accs _ hf x hx
-
 end Opus.SilkApi
